@@ -877,6 +877,24 @@ fn dump_crate<'tcx>(tcx: TyCtxt<'tcx>, full: bool) -> String {
                                     _ => format!("{}", bits),
                                 };
                                 v.push(("val", esc(&val)));
+                            } else if let ConstValue::Indirect { alloc_id, offset } = cv {
+                                // small aggregate constants: record whether every byte is zero (e.g. `(false, false)`, `[0; 4]`)
+                                if let Ok(layout) = tcx.layout_of(TypingEnv::fully_monomorphized().as_query_input(t)) {
+                                    let size = layout.size;
+                                    if size.bytes() <= 64 {
+                                        if let rustc_middle::mir::interpret::GlobalAlloc::Memory(m) = tcx.global_alloc(alloc_id) {
+                                            let a = m.inner();
+                                            let start = offset.bytes() as usize;
+                                            let end = start + size.bytes() as usize;
+                                            if end <= a.len() && a.provenance().ptrs().is_empty() {
+                                                let bytes = a.inspect_with_uninit_and_ptr_outside_interpreter(start..end);
+                                                v.push(("allzero", b(bytes.iter().all(|x| *x == 0))));
+                                            }
+                                        }
+                                    }
+                                }
+                            } else if let ConstValue::ZeroSized = cv {
+                                v.push(("allzero", b(true)));
                             }
                         }
                     }
